@@ -426,6 +426,7 @@ def run(ck, only=None):
         cpp_part(ck)
     if not only or only.get("linkage"):
         linkage_part(ck)
+        symbols_part(ck)
     if only and (only.get("cpp") or only.get("linkage")):
         return
     ck.sample({"signature": fns[min(len(fns) - 1, 200)].cid(), "prototype": fns[min(len(fns) - 1, 200)].proto()})
@@ -668,6 +669,90 @@ def linkage_part(ck):
         out = p.stdout.decode()
         if p.returncode != 0 or "DONE" not in out or "BAD" in out:
             ck.violation(f"linkage opt={n} wrong-value", dict(det, why=f"exit {p.returncode}: {out[:200]}"))
+
+
+SYM_C = r"""
+int plain_fn(int);
+int labelled(int) __asm__("_labelled$V2");
+int labelled_other(int) __asm__("other_name");
+int under_foo(int) __asm__("_under_foo");
+int same_label(int) __asm__("same_label");
+extern int gvar_plain;
+extern int gvar_lab __asm__("_gvar$INODE64");
+extern int gvar_under __asm__("_gvar_under");
+extern const int cvar_lab __asm__("cvar_renamed");
+"""
+SYM_C_USE = "int use_all(void) { return plain_fn(1) + labelled(1) + labelled_other(1) + under_foo(1) + same_label(1) + gvar_plain + gvar_lab + gvar_under + cvar_lab; }\n"
+SYM_CPP = r"""
+void Z(); void Zed(int); void _Z3foov_like(); int over(int); int over(char);
+namespace N { void f(); extern int g; }
+struct S { void m(); static void sm(); int x; S(int); ~S(); };
+extern "C" void c_linkage(int);
+extern "C" int c_labelled(int) __asm__("_c_labelled$X");
+"""
+SYM_CPP_USE = "void use_all() { Z(); Zed(1); _Z3foov_like(); over(1); over('c'); N::f(); N::g = 1; S s(1); s.m(); S::sm(); c_linkage(1); c_labelled(1); }\n"
+SYM_TARGETS = [("x86_64-unknown-linux-gnu", ""), ("x86_64-apple-darwin", "_"), ("aarch64-unknown-linux-gnu", ""), ("i686-unknown-linux-gnu", "")]
+
+
+def symbols_part(ck):
+    """The symbol each declaration binds, per TARGET, without executing anything: a translation unit that uses every declaration
+    is compiled by `clang --target=T -c`; its undefined symbols (llvm-nm -u) are what the declarations refer to on T. A foreign
+    item of the bindings refers to: its `#[link_name]` taken literally when it starts with the byte 0x01, otherwise its link name or
+    identifier with the target's global prefix (`_` on Mach-O). Every symbol the bindings refer to must be one the C compiler
+    refers to, and every C symbol must be reached."""
+    wd = os.path.join(ck.wd, "symbols")
+    os.makedirs(wd, exist_ok=True)
+    n = 0
+    for lang, decl, use in (("c", SYM_C, SYM_C_USE), ("cpp", SYM_CPP, SYM_CPP_USE)):
+        ext = "h" if lang == "c" else "hpp"
+        hp = os.path.join(wd, f"sym.{ext}")
+        open(hp, "w").write(decl)
+        up = os.path.join(wd, f"use_{lang}.{'c' if lang == 'c' else 'cc'}")
+        open(up, "w").write(f'#include "sym.{ext}"\n' + use)
+        jobs = [{"id": f"{lang}|{t}", "args": [hp, "--no-layout-tests", "--formatter", "none", "--", f"--target={t}"] + (["-x", "c++", "-std=c++14"] if lang == "cpp" else []),
+                 "inventory": True} for t, _ in SYM_TARGETS]
+        res = common.run_jobs(jobs, wd)
+        for t, prefix in SYM_TARGETS:
+            obj = os.path.join(wd, f"use_{lang}_{t}.o")
+            rc, _, err = common.clang((["-x", "c++", "-std=c++14"] if lang == "cpp" else []) + [f"--target={t}", "-c", "-O0", "-w", "-fno-exceptions", "-fno-stack-protector", "-o", obj, up], cwd=wd)
+            common.guard(rc == 0, f"C04 symbols: use file does not compile for {t}: {err[:300]}")
+            nm = common.sh(["llvm-nm", "-u", obj]).stdout.decode()
+            csyms = {l.split()[-1] for l in nm.splitlines() if l.strip()}
+            csyms = {x for x in csyms if not re.fullmatch(r"_*(GLOBAL_OFFSET_TABLE_|Unwind_Resume|_gxx_personality_v0|_stack_chk_fail|_stack_chk_guard)", x)}   # runtime support
+            r = res[f"{lang}|{t}"]
+            det = {"symbols": True, "target": t, "lang": lang}
+            ck.count()
+            if r["status"] != "ok":
+                ck.violation(f"symbols lang={lang} target={t} generation-failed", dict(det, why=str(r)[:200]))
+                continue
+            refs = {}
+
+            def walk(items):
+                for it in items:
+                    if it["kind"] == "mod":
+                        walk(it["items"])
+                    elif it["kind"] == "foreign_mod":
+                        for fi in it["items"]:
+                            ln = fi.get("link_name")
+                            if ln and ln.startswith("\x01"):
+                                refs[ln[1:]] = fi["name"]
+                            else:
+                                refs[prefix + (ln or fi["name"])] = fi["name"]
+            walk(r["inventory"]["items"])
+            for sym, rname in sorted(refs.items()):
+                ck.count()
+                n += 1
+                ck.nontriv(("symbols", lang, t, sym))
+                if sym not in csyms:
+                    ck.violation(f"symbols lang={lang} target={t} item={rname} refers-to={sym}", dict(det, predicate=f"symbols|{lang}|{'macho' if prefix else 'elf'}|{rname}",
+                                 why=f"the binding `{rname}` refers to the symbol `{sym}` on {t}, which the C compiler does not use for any declaration of the header (it uses {sorted(csyms)[:14]})"))
+            # every function / variable symbol of the C side is reached (C: all of them; C++: the ones bindgen is expected to bind)
+            expect = csyms if lang == "c" else {x for x in csyms if not re.search(r"C[12]E|D[012]Ev", x)}
+            for sym in sorted(expect - set(refs)):
+                ck.count()
+                ck.violation(f"symbols lang={lang} target={t} symbol={sym} not-reached", dict(det, predicate=f"symbols-unreached|{lang}|{'macho' if prefix else 'elf'}|{sym}",
+                             why=f"no binding refers to `{sym}` on {t}; the bindings refer to {sorted(refs)[:14]}"))
+    ck.extra["symbol_references_checked"] = n
 
 
 def replay(ck, case, detail):
